@@ -94,6 +94,12 @@ struct StackFrame {
     return_address: usize,
     return_place: Option<Var>,
     allocations: Vec<Allocation>,
+
+    /// The variables of the caller, restored when this frame is popped
+    ///
+    /// Variables are keyed by scope, so a recursive call would otherwise
+    /// overwrite the variables of the activation that called it.
+    saved_vars: HashMap<Var, IrValue>,
 }
 
 #[derive(Debug)]
@@ -120,6 +126,7 @@ impl Default for Memory {
                 return_address: 0,
                 return_place: None,
                 allocations: Vec::new(),
+                saved_vars: HashMap::new(),
             }],
         }
     }
@@ -172,6 +179,7 @@ impl Memory {
         &mut self,
         return_address: usize,
         return_place: Option<Var>,
+        saved_vars: HashMap<Var, IrValue>,
     ) {
         let id = self.id_counter;
         self.id_counter += 1;
@@ -180,6 +188,7 @@ impl Memory {
             return_address,
             return_place,
             allocations: Vec::new(),
+            saved_vars,
         });
     }
 
@@ -428,7 +437,24 @@ pub fn eval(
             } => {
                 let f = p.iter().find(|f| f.name == *func).unwrap();
 
-                mem.push_frame(program_counter, to.clone().map(|to| to.0));
+                // Evaluate everything that is passed in the caller's
+                // variables before any variable of the callee is set: with
+                // a recursive call they are the same variables.
+                let return_ptr_val = return_ptr
+                    .as_ref()
+                    .map(|r| eval_operand(&vars, &r.clone().into()).clone());
+                let ctx_val =
+                    ctx.as_ref().map(|c| eval_operand(&vars, c).clone());
+                let arg_vals: Vec<_> = args
+                    .iter()
+                    .map(|a| eval_operand(&vars, a).clone())
+                    .collect();
+
+                mem.push_frame(
+                    program_counter,
+                    to.clone().map(|to| to.0),
+                    vars.clone(),
+                );
 
                 for (var, val_or_slot) in &f.variables {
                     if let ValueOrSlot::StackSlot(layout) = val_or_slot {
@@ -437,25 +463,23 @@ pub fn eval(
                     }
                 }
 
-                if let Some(return_ptr) = return_ptr {
+                if let Some(return_ptr_val) = return_ptr_val {
                     vars.insert(
                         Var {
                             scope: f.scope,
                             kind: VarKind::Return,
                         },
-                        eval_operand(&vars, &return_ptr.clone().into())
-                            .clone(),
+                        return_ptr_val,
                     );
                 }
 
-                if let Some(ctx) = ctx {
-                    let ctx_val = eval_operand(&vars, ctx);
+                if let Some(ctx_val) = ctx_val {
                     vars.insert(
                         Var {
                             scope: f.scope,
                             kind: VarKind::Context,
                         },
-                        ctx_val.clone(),
+                        ctx_val,
                     );
                 }
 
@@ -466,14 +490,13 @@ pub fn eval(
                     ItemKind::Constant { .. } => None,
                 };
 
-                for (name, arg) in names.into_iter().flatten().zip(args) {
-                    let val = eval_operand(&vars, arg);
+                for (name, val) in names.into_iter().flatten().zip(arg_vals) {
                     vars.insert(
                         Var {
                             scope: f.scope,
                             kind: VarKind::Explicit(name),
                         },
-                        val.clone(),
+                        val,
                     );
                 }
                 program_counter = block_map[&f.entry_block];
@@ -494,8 +517,10 @@ pub fn eval(
                     allocations: _,
                     return_address,
                     return_place,
+                    saved_vars,
                 }) = mem.pop_frame()
                 {
+                    vars = saved_vars;
                     if let Some(val) = val {
                         vars.insert(return_place.unwrap(), val.clone());
                     }
